@@ -686,7 +686,7 @@ Proof.
   rewrite (expected_retry_sim V p src res dest ds pre1 pre2 failed Ht Hp), He. cbn [andb].
   rewrite forallb_forall in Hs. apply forallb_forall. intros d Hd.
   rewrite (Hq (dkey src d)); [apply Hs; exact Hd|].
-  apply deps_eqb_eq in He. rewrite He in Hd. apply In_regroup in Hd. unfold expected_retry in Hd.
+  apply (deps_perm_In _ _ d He) in Hd. apply In_regroup in Hd. unfold expected_retry in Hd.
   apply filter_In in Hd. apply Ht. apply in_map. apply Hd.
 Qed.
 
